@@ -6,4 +6,5 @@ CONSTANTS
   Bugs = {}
   Depth = 6
   Types = {"bits", "indexed", "gradient", "solid"}
+  Focus = FALSE
 INVARIANT EmitBehaviour
